@@ -71,7 +71,9 @@ def centroid_1dg(data, error=None, mask=None):
     """
     (data, error), _ = process_quantities((data, error), ('data', 'error'))
 
-    data = np.ma.asanyarray(data)
+    # copy to avoid modifying the mask (or fill value) of an input
+    # masked array
+    data = np.ma.asanyarray(data).copy()
 
     if mask is not None and mask is not np.ma.nomask:
         mask = np.asanyarray(mask)
@@ -224,7 +226,9 @@ def centroid_2dg(data, error=None, mask=None):
 
     (data, error), _ = process_quantities((data, error), ('data', 'error'))
 
-    data = np.ma.asanyarray(data)
+    # copy to avoid modifying the mask (or fill value) of an input
+    # masked array
+    data = np.ma.asanyarray(data).copy()
 
     if mask is not None and mask is not np.ma.nomask:
         mask = np.asanyarray(mask)
